@@ -117,6 +117,104 @@ def record(ctx: Ctx, cache, templates, per_template: int, steps: int) -> tuple[l
     return traces, cases
 
 
+# ---------------------------------------------------------------------------------------------
+# spec -> code: edge cover of the bounded model's state graph
+# ---------------------------------------------------------------------------------------------
+_COVER_FN = {}
+
+
+def _cover_fn():
+    if "f" not in _COVER_FN:
+        import equinox as eqx
+        import jax
+        import jax.numpy as jnp
+
+        @eqx.filter_jit
+        def f(env, tl_hops, depth, s_arr, cnt_arr, acts, keys, key0):
+            base = env.initial(key=key0)
+
+            def inner(x, hops):
+                for _ in range(hops):
+                    x = x.env_state
+                return x
+
+            def one(s, cnt, a, k):
+                st = eqx.tree_at(lambda x: inner(x, depth).s, base, s)
+                for j, hops in enumerate(tl_hops):
+                    st = eqx.tree_at(lambda x, hops=hops: inner(x, hops).step_count, st, cnt[j])
+                out = env.step(st, a, key=k)
+                return out[:5]
+            return jax.vmap(one)(s_arr, cnt_arr, acts, keys)
+        _COVER_FN["f"] = f
+    return _COVER_FN["f"]
+
+
+def edge_cover(ctx: Ctx, rep: Report, cache):
+    """TLC enumerates the reachable states of the bounded model (MC_EnvAPI_cover); every action of the configuration is then
+    executed from every one of these states on the real objects (state placed with eqx.tree_at), and every such step is judged
+    by Trace_EnvAPI: every edge of the model's graph is exercised on the implementation, not a random sample of them."""
+    import jax.numpy as jnp
+    import jax.random as jr
+    import numpy as np
+    from .. import drive_env
+    cfgs = mc_cfgs(ctx)
+    cfgs = cfgs[:14] + cfgs[14:14 + ctx.pick(10, 120)]
+    for i, c in enumerate(cfgs):
+        c["id"] = i + 1
+    f = ctx.work / "mc_envapi_cover_cfgs.json"
+    f.write_text(json.dumps(cfgs))
+    res = tlc.run("mc/MC_EnvAPI.tla", "mc/MC_EnvAPI_cover.cfg", workdir=ctx.work, workers=1, env={"CFG_FILE": str(f)}, timeout=1500)
+    tlc.require_ok(res, "MC_EnvAPI_cover")
+    rep.add_tlc("MC_EnvAPI_cover", res, configurations=len(cfgs))
+    reach = {}
+    for p in res.printed("ST"):
+        cid, s, cnt, eplen = p
+        reach.setdefault(int(cid), set()).add((int(s), tuple(int(x) for x in cnt), int(eplen)))
+    if len(reach) != len(cfgs):
+        raise Machinery(f"edge cover: TLC reported states for {len(reach)} of {len(cfgs)} configurations")
+    fn = _cover_fn()
+    traces, cases, edges = [], [], 0
+    for c in cfgs:
+        env = cache.get(c)
+        depth = len(c["stack"])
+        tl = [(i, depth - 1 - i) for i, w in enumerate(c["stack"]) if w["kind"] == "TimeLimit"]
+        _, osp = tb.outer_spaces(c)
+        pairs = [(st, a) for st in sorted(reach[c["id"]]) for a in c["acts"]]
+        s_arr = jnp.asarray([st[0] - 1 for st, _ in pairs], dtype=jnp.int32)
+        cnt_arr = jnp.asarray([[st[1][i] for i, _ in tl] or [0] for st, _ in pairs], dtype=jnp.int32)
+        acts = jnp.stack([drive_env._act_array(c, a) for _, a in pairs])
+        seed = ctx.rng.randrange(2 ** 31)
+        keys = jr.split(jr.key(seed), len(pairs))
+        outs = fn(env, tuple(h for _, h in tl), depth, s_arr, cnt_arr, acts, keys, jr.key(0))
+        import jax
+        outs = jax.device_get(outs)
+        events = []
+        for j, (st, a) in enumerate(pairs):
+            events.append(dict(ev="at", a=0, obs=0, rew=0, term=False, trunc=False, s=st[0], cnt=list(st[1]), eplen=st[2]))
+            st_j = jax.tree.map(lambda x: x[j], outs[0])
+            events.append(dict(ev="step", a=int(a), obs=tb.obs_code(osp["kind"], outs[1][j]), rew=drive_env.rew_int(outs[2][j]),
+                               term=bool(outs[3][j]), trunc=bool(outs[4][j]), **tb.proj_env_state(st_j, depth)))
+        edges += len(pairs)
+        traces.append({"cfg": c, "events": events})
+        cases.append({"cfg": c, "pairs": [[list(st[:1]) + [list(st[1]), st[2]], a] for st, a in pairs], "seed": seed})
+    v = tracecheck.validate(ctx, "trace/Trace_EnvAPI.tla", traces, "edgecover", procs=ctx.pick(4, 12))
+    rep.states += v.distinct
+    rep.transitions += v.generated
+    rep.traces += len(traces)
+    rep.evaluations += edges
+    rep.parts["S2C_edge_cover"] = {"configurations": len(cfgs), "reachable_model_states": sum(len(x) for x in reach.values()),
+                                   "edges_executed_on_real_objects": edges, "accepted": len(v.accepted), "rejected": len(v.rejected)}
+    for i, (l, clauses) in sorted(v.rejected.items()):
+        ev = traces[i]["events"][l - 1]
+        pre = traces[i]["events"][l - 2] if l >= 2 else None
+        stack = [w["kind"] for w in traces[i]["cfg"]["stack"]]
+        rep.violations.append(Violation(key_of(clauses), f"edge of the model graph executed on the real objects is not a step of EnvAPI: "
+                                        f"failing clauses {clauses}; stack={stack} from={pre} event={ev}", "edgecover",
+                                        {"cfg": traces[i]["cfg"], "pair": cases[i]["pairs"][(l - 1) // 2], "seed": cases[i]["seed"]}))
+    if edges < 20 * len(cfgs) // 2:
+        raise Machinery(f"edge cover executed only {edges} edges for {len(cfgs)} configurations: vacuity guard")
+
+
 def key_of(clauses) -> str:
     return "C01:EnvAPI:" + "+".join(clauses)
 
@@ -171,6 +269,7 @@ def run(ctx: Ctx) -> Report:
                                  "events": sum(len(t["events"]) for t in traces)}
     rep.violations += violations_from(v, traces, cases)
     rep.parts["binding_self_test"] = {"corrupted_traces_rejected": self_test(ctx, traces, v)}
+    edge_cover(ctx, rep, cache)
     t0 = traces[0]
     rep.samples.append({"kind": "EnvAPI trace (real TableEnv under real wrappers)",
                         "stack": [w["kind"] for w in t0["cfg"]["stack"]], "events": t0["events"][:6]})
@@ -188,6 +287,26 @@ def run(ctx: Ctx) -> Report:
 def replay(ctx: Ctx, driver: str, case: dict) -> Report:
     from .. import drive_env
     rep = Report()
+    if driver == "edgecover":
+        import jax.numpy as jnp
+        import jax.random as jr
+        cache = tb.EnvCache()
+        cfg = case["cfg"]
+        (s, cnt, eplen), a = case["pair"]
+        env = cache.get(cfg)
+        depth = len(cfg["stack"])
+        st = tb.make_state(env, cfg, s, cnt)
+        out = env.step(st, drive_env._act_array(cfg, a), key=jr.key(case["seed"]))
+        _, osp = tb.outer_spaces(cfg)
+        tr = {"cfg": cfg, "events": [dict(ev="at", a=0, obs=0, rew=0, term=False, trunc=False, s=s, cnt=cnt, eplen=eplen),
+                                     dict(ev="step", a=int(a), obs=tb.obs_code(osp["kind"], out[1]), rew=drive_env.rew_int(out[2]),
+                                          term=bool(out[3]), trunc=bool(out[4]), **tb.proj_env_state(out[0], depth))]}
+        v = tracecheck.validate(ctx, "trace/Trace_EnvAPI.tla", [tr], "replay")
+        rep.traces = 1
+        for i, (l, clauses) in sorted(v.rejected.items()):
+            rep.violations.append(Violation(key_of(clauses), f"edge {case['pair']}: failing clauses {clauses}; event={tr['events'][1]}",
+                                            "edgecover", case))
+        return rep
     if driver == "envapi":
         cache = tb.EnvCache()
         tr = drive_env.record_envapi(cache, case["cfg"], case["actions"], case["seed"], scanned=case.get("scanned", True))
